@@ -329,3 +329,102 @@ pmant!(pslow_pmant_i21_f0_m20, 21, 0, 0, 20);
 pmant!(pslow_pmant_i19_f3_m19, 19, 3, 0, 19);
 pmant!(pslow_pmant_i10_f12_m21, 10, 12, 0, 21);
 pmant!(pslow_pmant_i0_f23_z1_m21, 0, 23, 1, 21);
+
+// ---------------------------------------------------------------- negative_digit_comp
+//
+// Bigint::pow is replaced by an exact model on single-limb values (its contract: the value
+// is multiplied by base^exp; obligations c12_pow_factors, c12_small_mul, c12_shl*).  The
+// domain is restricted so that every scaled value stays below 2^64 (BOUNDED stand-in): what
+// is verified is negative_digit_comp's own logic - truncation of the estimate to b, b+h,
+// which side is scaled by which power of 2 and 5, direction of the comparison, ties to even.
+
+fn model_bigint_pow(this: &mut Bigint, base: u32, exp: u32) -> Option<()> {
+    let v: u64 = if this.data.len() == 0 {
+        0
+    } else {
+        assert!(this.data.len() == 1, "model covers single-limb values");
+        this.data[0]
+    };
+    kani::assume(exp <= 62);
+    let nv: u128 = if base == 2 {
+        // multiplication by 2^exp as a shift (keeps the model free of symbolic multipliers)
+        (v as u128) << exp
+    } else {
+        let mut f: u128 = 1;
+        let mut i = 0;
+        while i < 27 {
+            if i < exp {
+                f *= base as u128;
+            }
+            i += 1;
+        }
+        kani::assume(exp <= 27);
+        v as u128 * f
+    };
+    kani::assume(nv < 1u128 << 64);
+    *this = Bigint::from_u64(nv as u64);
+    Some(())
+}
+
+macro_rules! negative_comp {
+    ($name:ident, $t:ty, $fmt:expr, $k:expr, $dbits:expr, $elo:expr, $ehi:expr, $tie:expr) => {
+        /// negative_digit_comp::<F>(D, fp, -k): for every single-limb digit integer D < 2^24,
+        /// every normalised estimate fp in the range where all scaled values fit one limb:
+        /// with b = the estimate truncated to a float and h = half its ulp, the result is
+        /// b if D*10^-k < b+h, the float above b if D*10^-k > b+h, and the even one on a tie.
+        #[kani::proof]
+        #[kani::unwind(66)]
+        #[kani::stub(Bigint::pow, model_bigint_pow)]
+        fn $name() {
+            let d: u64 = kani::any();
+            kani::assume(d != 0 && d < (1u64 << $dbits));
+            let fp = ExtendedFloat { mant: kani::any(), exp: kani::any() };
+            kani::assume(fp.mant >> 63 == 1);
+            // estimate's value is about D*10^-k < 2^24: biased exponent range of a normal result
+            // biased exponent range of the estimate: e_b = fp.exp + (63 - ms) - bias in [$elo, $ehi]
+            kani::assume(fp.exp as i64 + (63 - $fmt.ms as i64) - $fmt.bias as i64 >= $elo && fp.exp as i64 + (63 - $fmt.ms as i64) - ($fmt.bias as i64) <= $ehi);
+            let big = Bigint::from_u64(d);
+            let r = negative_digit_comp::<$t>(big, fp, -$k);
+            let rbits = r.mant | ((r.exp as u64) << $fmt.ms);
+            // b = truncation of the estimate (specification: spec_is_rtz), as fields
+            let shift = 63 - $fmt.ms;
+            let m_b: u64 = fp.mant >> shift; // 2^ms <= m_b < 2^(ms+1): normal in this range
+            let e_field = (fp.exp + shift as i32) as u64;
+            let b_bits = (e_field << $fmt.ms) | (m_b & ((1u64 << $fmt.ms) - 1));
+            assert!(spec_is_rtz($fmt, fp.mant, fp.exp, b_bits));
+            // b + h = (2 m_b + 1) * 2^(e_b - 1), e_b = e_field - bias ; compare with D / 10^k:
+            //   D * 2^(1 - e_b)  ?  (2 m_b + 1) * 10^k          (1 - e_b > 0 in this range)
+            let e_b: i32 = e_field as i32 - $fmt.bias;
+            let sh = (1 - e_b) as u32;
+            assert!(e_b <= 0 && sh <= 100);
+            let lhs: u128 = (d as u128) << sh;
+            let mut p10: u128 = 1;
+            let mut i = 0;
+            while i < $k {
+                p10 *= 10;
+                i += 1;
+            }
+            let rhs: u128 = (2 * m_b as u128 + 1) * p10;
+            let expect = if lhs < rhs {
+                b_bits
+            } else if lhs > rhs {
+                b_bits + 1
+            } else if m_b & 1 == 1 {
+                b_bits + 1
+            } else {
+                b_bits
+            };
+            assert!(rbits == expect, "P-SLOW negative_digit_comp rounds by the exact comparison with b+h, ties to even");
+            kani::cover!(!$tie || lhs == rhs, "exact tie");
+            kani::cover!(lhs > rhs);
+            kani::cover!(lhs < rhs);
+        }
+    };
+}
+// small digit integers over many binades (no tie possible: a tie needs ms+2 significant bits)
+negative_comp!(pslow_negative_comp_f64_k1, f64, F64, 1, 24, -90, -30, false);
+negative_comp!(pslow_negative_comp_f32_k1, f32, F32, 1, 24, -60, -1, false);
+// wide digit integers just below 2^64 where exact ties exist
+negative_comp!(pslow_negative_comp_f64_k1_tie, f64, F64, 1, 63, -3, 0, true);
+negative_comp!(pslow_negative_comp_f64_k3_tie, f64, F64, 3, 63, -3, 0, true);
+negative_comp!(pslow_negative_comp_f32_k2_tie, f32, F32, 2, 40, -6, 0, true);
